@@ -18,6 +18,11 @@ Linearisation rules (why the resulting order is a legal order of the real execut
 """
 import re
 
+import os
+# replay heart-beat iterations at read granularity (default); VERIF_COARSE_REPLAY=1 selects the older replay with atomic handlers,
+# in which the other threads' lines inside an iteration are moved in front of the handler token
+FINE_GRAINED = os.environ.get("VERIF_COARSE_REPLAY", "") != "1"
+
 ALPHA = "abc"
 WORDS = ["a", "b", "c", "ab", "ba", "bc", "ca", "abc", "cab", "bb", "ac", "cc"]
 CMDS = ["c0", "c01", "c02", "c1", "c2", "c"]          # what interactive typing of 0/1/2 + backspace can reach
@@ -84,7 +89,12 @@ def gen_session(rng, kind):
         cmds.append("%s=%s" % (name, spec))
     evs = []
     if kind == "c14":
+        # mostly no event at all (the decision is the subject); sometimes the session goes on after the decision: queries that match
+        # nothing / one item must not make an option fire later
         nev = 0
+        if rng.random() < 0.3:
+            evs += ["idle", "add:%d" % ord(rng.choice("abcz")), "idle"] + (["add:122", "idle"] if rng.random() < 0.5 else []) + \
+                   (["bs", "idle"] if rng.random() < 0.3 else [])
     else:
         nev = rng.choice([1, 3, 6, 12])
     for _ in range(nev):
@@ -285,6 +295,56 @@ def _post(case, impl):
                     pre.append(foreign(l))
         if kill_at is not None and live_id[0] is not None:
             dead.add(live_id[0])
+        if ev == "EvHeartBeat" and FINE_GRAINED:
+            # READ GRANULARITY: nothing is moved. M's reads, its harvest, its restart and its decision are separate tokens, and the
+            # lines of the other threads stay exactly where the trace has them (Driver/C01.lean replays them through
+            # Model/SessionFG.lean: a `true` that M logged must be true of the model state at that position; a `false` may be stale)
+            toks.append("Mb")
+            for l in inner:
+                t = foreign(l)
+                if t:
+                    toks.append(t)
+                    continue
+                mm = re.match(r"hb\.rs (\w+)$", l)
+                if mm:
+                    toks.append("Mrs %d" % (mm.group(1) == "true"))
+                    continue
+                mm = re.match(r"hb\.ms (\w+)$", l)
+                if mm:
+                    toks.append("Mms %d" % (mm.group(1) == "true"))
+                    continue
+                if l.startswith("hb.harvest "):
+                    toks.append("Mhv")
+                    continue
+                mm = re.match(r"hb\.ic (\w+)$", l)
+                if mm:
+                    toks.append("Mic %d" % (mm.group(1) == "true"))
+                    continue
+                if l.startswith("r.take ") or l.startswith("restart done=") or l in ("hb.arm", "hb.idle"):
+                    # restart_matcher is atomic at its take (under the buffer lock), or — when it finds the reader done and takes
+                    # nothing — at that reading; the token is a no-op once the step has been made
+                    toks.append("Mfin")
+                    continue
+                mm = re.match(r"s1\.reads ic=(\w+) rs=(\w+)", l)
+                if mm:
+                    toks.append("Ms1 %d %d" % (mm.group(1) == "true", mm.group(2) == "true"))
+                    continue
+                mm = re.match(r"s1\.decide (\w+) n=(\d+)", l)
+                if mm:
+                    toks.append("Mdec")
+                    toks.append("DEC %s %s" % (mm.group(1), mm.group(2)))
+            toks.append("Me")
+            if spawned is not None:
+                live_id[0] = spawned
+            if end is not None:
+                snap, info = snap_tok(trace[end])
+                toks.append(snap)
+                prev_snap[0] = info
+                toks.append("CUR %s" % (info["list"][info["cur"]] if info["cur"] < len(info["list"]) else "x"))
+                dkey = "%s/%d" % (enc(info["dq"]), int(info["re"]))
+                toks.append("DQ %d %d" % (qids.get(dkey, 999), cid_of.get(info["dcmd"], 99)))
+            pos = e + 1 if end is not None else e
+            continue
         if ev.startswith("EvActAccept") or ev == "EvActAbort":
             # the session ends here: reader and matcher are killed inside this handler, what their threads
             # log while dying is not part of the protocol
